@@ -4,6 +4,7 @@ package main
 
 import (
 	"context"
+	"errors"
 	"encoding/json"
 	"flag"
 	"fmt"
@@ -222,6 +223,13 @@ func runStall(cs *Case) (*Obs, []evRec) {
 			if blk == nil {
 				bmu.Unlock()
 				return nil
+			}
+			if blk.Hold < 0 {
+				// the transport fails: Send returns an error, the RPC must end with it
+				obs.Stalled[i] = 2
+				bmu.Unlock()
+				add(evRec{kind: "cancel", i: i})
+				return errors.New("transport is closing")
 			}
 			ss := stalls[i]
 			ss.blocked, ss.forever, ss.since, ss.remaining = true, blk.Hold == 0, written, blk.Hold
@@ -802,6 +810,14 @@ func genCase(r *vh.Rand, dead bool) *Case {
 			// no transient block beside it: with the 100 ms timer of this family a Send held
 			// for a few writes could time out on a loaded machine
 			plan = append(plan, Block{At: 1 + r.Intn(3), Hold: 0})
+		}
+		if k != 2 && r.Chance(1, 8) {
+			// a Send that fails outright (after the planned blocks, if any)
+			at := 1 + r.Intn(3)
+			if len(plan) > 0 {
+				at = plan[len(plan)-1].At + 1 + r.Intn(2)
+			}
+			plan = append(plan, Block{At: at, Hold: -1})
 		}
 		cs.Plan = append(cs.Plan, plan)
 	}
